@@ -11,9 +11,9 @@ TRUSTED_BASE = ["Coq 8.16.1 kernel", "tools/gen_constants.py", "extraction (Extr
 ASSUMPTIONS = ["internal crypto backend only"]
 
 
-def scripts(rng, tier):
+def scripts(rng, tier, n=None):
     out = []
-    n = 30 if tier == "quick" else 500
+    n = n or (30 if tier == "quick" else 500)
     for k in range(n):
         ssrc = rng.randrange(2, 1 << 32)
         p = rand_policy(rng, ssrc=ssrc, valid=True)
@@ -69,4 +69,6 @@ def monitor(script, c):
 
 def families(tier, seed):
     rng = random.Random(seed * 1000 + 2)
-    return [Family("rtcp-roundtrip", scripts(rng, tier), monitor=monitor)]
+    rng2 = random.Random(seed * 1000 + 102)
+    return [Family("rtcp-roundtrip", scripts(rng, tier), monitor=monitor),
+            Family("gcm-rtcp-roundtrip", with_aead(scripts, rng2, tier, n=(10 if tier == "quick" else 200)), monitor=monitor, config="openssl")]
